@@ -154,7 +154,7 @@ class Atoms:
             p = B.f(i, 'xi', (1, 1, 1, 1), d)
             return poly_eval_sym(p, {'xi': xi})
         self.keep.append(xi)
-        return self._atom(('F', d, i, skey(xi)), 'f%d_%d' % (d, i))
+        return self._atom(('F', d, i, self.canon(xi)), 'f%d_%d' % (d, i))
 
     # -- the C API -------------------------------------------------------------------------------
     def make_env(self):
